@@ -11,6 +11,7 @@ import (
 	"testing"
 
 	tapolicy "github.com/containers/nri-plugins/cmd/plugins/topology-aware/policy"
+	cfgapi "github.com/containers/nri-plugins/pkg/apis/config/v1alpha1"
 	"github.com/containers/nri-plugins/pkg/utils/cpuset"
 	"github.com/containers/nri-plugins/pkg/verif/mc"
 )
@@ -322,16 +323,42 @@ func TestVerifC19Balloons(t *testing.T) {
 		}
 		// every case twice: on the configuration as applied at start, and after an update that validation refuses and that
 		// carries other type names - the configuration in force, and with it the selection, must be the same
-		for _, pre := range []string{"", ":after-refused-update"} {
+		for _, pre := range []string{"", ":after-refused-update", ":after-permuting-update"} {
 			var x *exec
 			var err error
-			pan, msg, where := mc.Guard(func() { x, err = newExec(cs.s, scratchDir()) })
+			scn := cs.s
+			if pre == ":after-permuting-update" {
+				// the policy starts with the same types in reverse order and is then given the order of the case by an
+				// accepted update: the order in force, and with it the selection, is the one of the update
+				target := cs.s.cfgs[0]
+				rev := cfgSpec{label: "reversed", build: func() cfgapi.ResmgrConfig {
+					c := target.build().(*cfgapi.BalloonsPolicy)
+					d := c.Spec.Config.BalloonDefs
+					for a, b := 0, len(d)-1; a < b; a, b = a+1, b-1 {
+						d[a], d[b] = d[b], d[a]
+					}
+					return c
+				}}
+				if len(target.build().(*cfgapi.BalloonsPolicy).Spec.Config.BalloonDefs) < 2 {
+					continue
+				}
+				cp := *cs.s
+				cp.cfgs = []cfgSpec{rev, target}
+				scn = &cp
+			}
+			pan, msg, where := mc.Guard(func() { x, err = newExec(scn, scratchDir()) })
 			if pan || err != nil {
 				w.Report(mc.Violation{Property: "C19", Oracle: "setup", Signature: "setup-fails", Scenario: cs.s.name, Detail: fmt.Sprint(msg, where, err)})
 				continue
 			}
 			x.evIndex = -1
-			if pre != "" {
+			if pre == ":after-permuting-update" {
+				if rp := x.step("reconf:1"); rp.err != nil || rp.panic != "" {
+					w.Report(mc.Violation{Property: "C19", Oracle: "harness", Signature: "permuting-update-refused", Scenario: cs.s.name, Detail: fmt.Sprintf("the update that only reorders the balloon types was refused: %v %s", rp.err, rp.panic)})
+					continue
+				}
+			}
+			if pre == ":after-refused-update" {
 				bad := blCfg("refused", []*blDef{{Name: "byns", MinCpus: 3, MaxCpus: 2}, {Name: "zz-only-in-refused", MinCpus: 1}}).build()
 				var rerr error
 				mc.Guard(func() { rerr = x.in.m.reconfigure(bad) })
